@@ -13,6 +13,7 @@ C09 - rendering keeps the text.  Claimed for ONE clause only: docstring fields a
   R09.11 the doctest colorizer re-emits every named group of a token regex it takes apart
   R09.12 the piece taken after a delimiter is the whole remainder (split(d, k)[k], never split(d)[k])
   R09.13 a width cut from the front of every line of a block is computed over all of its lines
+  R09.16 a field handler that keeps ONE text per entry reports a second field for the same entry before it overwrites the first
   R09.15 verbatim epytext tokens (literal and doctest blocks) are cut from their lines by one line-independent width
   R09.14 a consolidated-field handler turns every child of a list item into field content (whole copy, or indexes covered by a validated length)
 Does not decide: word-for-word preservation, ordering, literal/doctest blocks, napoleon conversion (equalities over runtime strings).
@@ -558,6 +559,7 @@ def run(repo: Repo, chk: Check, thorough: bool = False) -> None:
         raise AnalysisError(f'R09.15: {n15} verbatim token constructions found in the epytext tokenizer (2 confirmed: _tokenize_doctest, _tokenize_literal)')
     chk.require('R09.15', 2)
 
+    check_r09_16(repo, chk)
     # ------------------------------------------------------------------ R09.7
     # a reST directive that declares a body (has_content = True) consumes it whatever its arguments are: every normal path through
     # run() passes through a statement that reads self.content
@@ -634,3 +636,43 @@ def _extract_fields_covers(repo: Repo) -> bool:
                                               any(isinstance(c, ast.Call) and call_name(c) == 'report' for st in n.body for c in ast.walk(st))
                                               for n in ef.walk())
     return 'visit_Module' in sites and 'visit_ClassDef' in sites and reports_missing
+
+
+def check_r09_16(repo: Repo, chk: Check) -> None:
+    # "Every field shows its own text under the entry it belongs to, or is reported in a warning; it is not silently discarded."  The handlers of
+    # @return / @rtype / @yield / @ytype keep one text in a slot (`self.return_desc.body = field.format()`), `@type x` one per name (`self.types[name] = ...`):
+    # a second field for the same entry replaces the first.  Before the store, the handler has to look at what is there and report (as handle_param
+    # does with "already documented")
+    fh = repo.classes.get(FH)
+    if fh is None:
+        raise AnalysisError('R09.16: FieldHandler not found')
+    n = 0
+    for nm, f in sorted(fh.methods.items()):
+        if not nm.startswith('handle_'):
+            continue
+        fieldp = f.params()[1].arg if len(f.params()) > 1 else None
+        stores = [a for a in f.walk() if isinstance(a, ast.Assign) and len(a.targets) == 1 and
+                  isinstance(a.value, ast.Call) and any(isinstance(c, ast.Call) and call_name(c) == 'format' and isinstance(c.func, ast.Attribute) and
+                                                        isinstance(c.func.value, ast.Name) and c.func.value.id == fieldp for c in ast.walk(a.value)) and
+                  (isinstance(a.targets[0], ast.Attribute) and isinstance(a.targets[0].value, ast.Attribute) and dotted(a.targets[0].value.value) == 'self' or
+                   isinstance(a.targets[0], ast.Subscript) and isinstance(a.targets[0].value, ast.Attribute) and dotted(a.targets[0].value.value) == 'self')]
+        if not stores:
+            continue
+        cfg = CFG(f)
+        for a in stores:
+            n += 1
+            slot = norm(a.targets[0])
+            holder = norm(a.targets[0].value)
+            base = holder.split('[')[0]
+            derived = {t2.id for s2 in f.walk() if isinstance(s2, ast.Assign) and base in norm(s2.value) for t2 in s2.targets if isinstance(t2, ast.Name)}
+            reports = [i for i in f.walk() if isinstance(i, ast.If) and cfg.before(i, a) and
+                       (base in norm(i.test) or any(isinstance(x, ast.Name) and x.id in derived for x in ast.walk(i.test))) and
+                       any(isinstance(c, ast.Call) and call_name(c) == 'report' for st in i.body for c in ast.walk(st))]
+            ok = bool(reports)
+            chk.ob('R09.16', f'{f.qn} :: a second field for `{slot}` is reported before it replaces the first', ok,
+                   f'`if {norm(reports[0].test)[:50]}: ...report(...)` precedes the store' if ok else
+                   f'`{norm(a)[:60]}` overwrites whatever an earlier field of the same kind put there: of two `@return` / `@rtype` / `@type x` fields only the last one is shown and '
+                   'the first disappears without any message', repo.loc(f.mod, a))
+    if n < 4:
+        raise AnalysisError(f'R09.16: {n} single-slot stores found in the field handlers (5 confirmed: return, returntype, yield, yieldtype, type)')
+    chk.require('R09.16', 4)
